@@ -34,6 +34,8 @@ FromRaw     == pc = "start" /\ typ # "rsa" /\ Step("raw", Desc(typ, SchemeOf(typ
 FromRawH    == pc = "start" /\ typ = "ed25519" /\ Step("raw_halgs", Desc(typ, SchemeOf(typ), "default", mat)) /\ pc' = "have"
 FromSpki    == pc = "start" /\ Step("spki", Desc(typ, SchemeOf(typ), "default", mat)) /\ pc' = "have"
 FromPem     == pc = "start" /\ Step("pem", Desc(typ, SchemeOf(typ), "default", mat)) /\ pc' = "have"
+\* a freshly generated key pair (PrivateKey::new -> from_pkcs8): like FromPrivate, for new material
+FromGenerated == pc = "start" /\ typ # "rsa" /\ Step("generated", Desc(typ, SchemeOf(typ), "default", mat)) /\ pc' = "have"
 FromSpkiOtherScheme ==
   pc = "start" /\ typ = "rsa" /\ Step("spki512", Desc(typ, "rsassa-pss-sha512", "default", mat)) /\ pc' = "have"
 
@@ -45,7 +47,7 @@ ViaJsonTxt == pc = "have" /\ Len(path) < 4 /\ Step("jsontext", d) /\ UNCHANGED p
 ViaSpki   == pc = "have" /\ Len(path) < 4 /\ Step("respki", [d EXCEPT !.halgs = "default"]) /\ UNCHANGED pc
 Stop      == pc = "have" /\ pc' = "done" /\ UNCHANGED <<typ, mat, d, path>>
 
-KNext == FromPrivate \/ FromRaw \/ FromRawH \/ FromSpki \/ FromPem \/ FromSpkiOtherScheme
+KNext == FromPrivate \/ FromGenerated \/ FromRaw \/ FromRawH \/ FromSpki \/ FromPem \/ FromSpkiOtherScheme
          \/ ViaJson \/ ViaJsonTxt \/ ViaSpki \/ Stop
 
 KDone == pc = "done"
